@@ -16,6 +16,8 @@ Clause(r) ==
   LET g == r.case.g IN
   CASE r.ev # "ok" -> r.ev
     [] Overwritten(r) # <<>> -> "result-overwritten-by-a-later-call"
+    \* an Encoder value with a history (it has just refused another geometry half way) writes what a new one writes
+    [] "histsame" \in DOMAIN r /\ ~r.histsame -> "encoder-value-with-history-writes-differently"
     [] ~r.encok -> "encode-error"
     \* the independent reader (the parser specification) must read the encoder's tokens back to g; WHICH standard
     \* rendering the encoder picks (bare or parenthesised multipoint members, ...) is not prescribed
